@@ -596,7 +596,8 @@ def _thread_start(self):
     s = _current
     if s is None or s.me() is None or s.dead:
         return _real["start"](self)
-    parent = s.me()
+    if getattr(self, "_det_state", None) is not None:
+        raise RuntimeError("threads can only be started once")
     ts = TState(s.fresh_name(getattr(self, "_det_name", None) or type(self).__name__), self)
     self._det_state = ts
     s.order.append(ts)
@@ -621,7 +622,13 @@ def _thread_start(self):
     self.run = run_wrapper
     ts.status = "ready"
     ts.label = "thread-begin"
-    _real["start"](self)
+    try:
+        _real["start"](self)
+    except BaseException:
+        s.order.remove(ts)
+        del s.by_name[ts.name]
+        self._det_state = None
+        raise
     # starting a thread is a visible operation: the child may run before the parent continues
     s.yield_point(f"started {ts.name}")
 
